@@ -2,7 +2,7 @@
 //! as big-endian bytes (NOT byte-identical to XDR; only injectivity and determinism are used).
 //!
 //! Feature `xdrdigest`: the serialisation of a value is a 4-byte HANDLE instead: the index of the record
-//! `(type id, flat words)` in the injective oracle's table (equal values of one type <-> equal handles,
+//! `(type id, flat words)` in a table of all values serialised so far (equal values of one type <-> equal handles,
 //! fixed width, so concatenations of handles are injective on tuples as concatenations of XDR are). For code
 //! that only appends and hashes serialisations (e.g. the smart account's rule fingerprint, whose faithful
 //! serialisation of a `Vec<Signer>` can never fit into one model `Bytes`). Not invertible (`from_xdr` overflows).
@@ -33,28 +33,62 @@ impl<T: Flat> ToXdr for T {
         out
     }
 }
+/// feature `xdrdigest`: the table behind the handles (own table, compared over exactly `T::W` words)
 #[cfg(feature = "xdrdigest")]
+pub const NX: usize = 6;
+#[cfg(feature = "xdrdigest")]
+pub const XW: usize = 24;
+#[cfg(feature = "xdrdigest")]
+#[derive(Clone, Copy)]
+pub struct XdrRec {
+    pub ty: u64,
+    pub n: u32,
+    pub w: [u64; XW],
+}
+#[cfg(feature = "xdrdigest")]
+pub static mut XDR_TABLE: [XdrRec; NX] = [XdrRec { ty: 0, n: 0, w: [0; XW] }; NX];
+#[cfg(feature = "xdrdigest")]
+pub static mut XDR_N: u32 = 0;
+
+#[cfg(feature = "xdrdigest")]
+#[allow(static_mut_refs)]
 impl<T: Flat> ToXdr for T {
     fn to_xdr(self, e: &Env) -> Bytes {
-        if T::W + 1 > model::HW || BYTES_CAP < 4 {
+        if T::W > XW || BYTES_CAP < 4 {
             model::overflow()
         }
-        let mut inp = [0u64; model::HW];
-        inp[0] = T::TY;
-        self.put(&mut inp[1..1 + T::W]);
-        let out = model::hash_oracle(5, T::W as u32, &inp);
-        // the handle: index of the (unique) record with this output
-        let w = model::world();
-        let mut idx = 0u32;
+        let mut x = [0u64; XW];
+        self.put(&mut x[..T::W]);
+        let (tab, n) = unsafe { (&mut XDR_TABLE, &mut XDR_N) };
+        // index of the record (type, words), appended if new
+        let mut idx = *n;
         let mut i = 0;
-        while i < model::NH {
-            if (i as u32) < w.n_hashes {
-                let o = &w.hashes[i].out;
-                if o[0] == out[0] && o[1] == out[1] && o[2] == out[2] && o[3] == out[3] {
+        while i < NX {
+            if (i as u32) < *n && tab[i].ty == T::TY && tab[i].n == T::W as u32 {
+                let mut same = true;
+                let mut k = 0;
+                while k < T::W {
+                    same &= tab[i].w[k] == x[k];
+                    k += 1;
+                }
+                if same && idx == *n {
                     idx = i as u32;
                 }
             }
             i += 1;
+        }
+        if idx == *n {
+            if *n as usize >= NX {
+                model::overflow()
+            }
+            let mut i = 0;
+            while i < NX {
+                if i as u32 == *n {
+                    tab[i] = XdrRec { ty: T::TY, n: T::W as u32, w: x };
+                }
+                i += 1;
+            }
+            *n += 1;
         }
         Bytes::from_array(e, &[0x58, 0x44, (idx >> 8) as u8, idx as u8])
     }
